@@ -3,7 +3,7 @@
 import json, os, shutil, subprocess, sys
 out = {}
 SRC = sys.argv[1] if len(sys.argv) > 1 and not sys.argv[1].startswith('--') else '/tmp/wt-out'
-REN = {'A': 'C', 'B': 'D'} if SRC.endswith('2') else {'A': 'E', 'B': 'F'} if SRC.endswith('3') else {'A': 'G', 'B': 'H'} if SRC.endswith('4') else {'A': 'I', 'B': 'J'} if SRC.endswith('5') else {'A': 'K', 'B': 'L'} if SRC.endswith('6') else {'A': 'M', 'B': 'N'} if SRC.endswith('7') else {}
+REN = {'A': 'C', 'B': 'D'} if SRC.endswith('2') else {'A': 'E', 'B': 'F'} if SRC.endswith('3') else {'A': 'G', 'B': 'H'} if SRC.endswith('4') else {'A': 'I', 'B': 'J'} if SRC.endswith('5') else {'A': 'K', 'B': 'L'} if SRC.endswith('6') else {'A': 'M', 'B': 'N'} if SRC.endswith('7') else {'A': 'O', 'B': 'P'} if SRC.endswith('8') else {}
 for pid in sorted(os.listdir(SRC)):
     for x in ('A', 'B', 'C', 'D'):
         sd = '%s/%s/%s' % (SRC, pid, x)
